@@ -55,6 +55,8 @@ type Op struct {
 	CID    int32    `json:"cid,omitempty"`
 	Notify string   `json:"notify,omitempty"`
 	PDU    bool     `json:"pdu,omitempty"`
+	// EmptyRef: update / release addressed to the empty session reference (.../chargingdata//update)
+	EmptyRef bool `json:"emptyRef,omitempty"`
 	V6     bool     `json:"v6,omitempty"`    // consumer identified by IPv6 address and FQDN instead of an IPv4 address
 	NoPSI  bool     `json:"nopsi,omitempty"` // create: pDUSessionChargingInformation without pduSessionInformation (rejected after the record counter moved)
 	OTE    string   `json:"ote,omitempty"`   // create: one-time event of this type (IEC / PEC); opens no session
@@ -183,6 +185,7 @@ type Sess struct {
 	U         int             `json:"u"`
 	Supi      string          `json:"supi"`
 	Ref       string          `json:"ref"`
+	Loc       string          `json:"loc,omitempty"` // the Location header of the create, as received
 	Cons      string          `json:"cons"`
 	Live      bool            `json:"live"`
 	LastGrant map[int32]int32 `json:"lastGrant"`
@@ -190,6 +193,35 @@ type Sess struct {
 	Notify    string          `json:"notify,omitempty"`
 	Tags      []int32         `json:"tags,omitempty"` // localSequenceNumbers reported on this session, in order
 	CreatedAt int             `json:"createdAt"`
+}
+
+// sessionTarget: the request target of a session resource. A session the driver created is addressed the way a consumer
+// does it: by the Location URI the create returned, as received (only octets that cannot appear in a URI at all are
+// percent-encoded, as any HTTP client library does); a reference written by the driver itself (unknown / stale / foreign
+// references) is one path segment and is escaped as such.
+func sessionTarget(se *Sess, op Op, ref string) string {
+	if op.EmptyRef {
+		return ccBase + "/chargingdata/"
+	}
+	if se != nil && op.Ref == "" && se.Loc != "" {
+		loc := se.Loc
+		if i := strings.Index(loc, "://"); i >= 0 {
+			if j := strings.Index(loc[i+3:], "/"); j >= 0 {
+				loc = loc[i+3+j:]
+			}
+		}
+		var b strings.Builder
+		for i := 0; i < len(loc); i++ {
+			c := loc[i]
+			if c <= ' ' || c >= 0x7f || strings.IndexByte("\"<>\\^`{|}", c) >= 0 {
+				fmt.Fprintf(&b, "%%%02X", c)
+			} else {
+				b.WriteByte(c)
+			}
+		}
+		return b.String()
+	}
+	return ccBase + "/chargingdata/" + url.PathEscape(ref)
 }
 
 type HistRun struct {
@@ -202,7 +234,12 @@ type HistRun struct {
 func refOf(loc string) string {
 	const m = "/chargingdata/"
 	if i := strings.LastIndex(loc, m); i >= 0 {
-		return loc[i+len(m):]
+		// the reference is the last path segment of the Location URI: a URI carries it percent-encoded
+		seg := loc[i+len(m):]
+		if u, err := url.PathUnescape(seg); err == nil {
+			return u
+		}
+		return seg
 	}
 	return ""
 }
@@ -257,17 +294,21 @@ func (w *World) execOn(supis []string, h *HistRun, ops []Op) []Step {
 
 func (w *World) execInto(supis []string, h *HistRun, ops []Op, snapFrom int, withGor bool, quiesce bool) {
 	// the re-entrant consumer updates the first live session it was told about in a create
-	reentrantConsumer = func() {
-		for si, se := range h.Sess {
-			if se.Live && se.Notify == "http://smf-reentrant.example/notify" {
-				op := usageOp("update", si, 1, 10, se.LastGrant[1], int32(7000+len(h.ReentrantCodes)))
-				r := w.Do("POST", ccBase+"/chargingdata/"+url.PathEscape(se.Ref)+"/update", op.Request(se.Supi), nil)
-				h.ReentrantCodes = append(h.ReentrantCodes, r.Code)
-				return
+	if !reentrantFixed {
+		defer func() { reentrantConsumer = nil }()
+	}
+	if !reentrantFixed {
+		reentrantConsumer = func() {
+			for si, se := range h.Sess {
+				if se.Live && se.Notify == "http://smf-reentrant.example/notify" {
+					op := usageOp("update", si, 1, 10, se.LastGrant[1], int32(7000+len(h.ReentrantCodes)))
+					r := w.Do("POST", ccBase+"/chargingdata/"+url.PathEscape(se.Ref)+"/update", op.Request(se.Supi), nil)
+					h.ReentrantCodes = append(h.ReentrantCodes, r.Code)
+					return
+				}
 			}
 		}
 	}
-	defer func() { reentrantConsumer = nil }()
 	base := len(h.Steps)
 	for i0, op := range ops {
 		i := base + i0
@@ -280,7 +321,7 @@ func (w *World) execInto(supis []string, h *HistRun, ops []Op, snapFrom int, wit
 		st.Supi = supi
 		var se *Sess
 		ref := op.Ref
-		if ref == "" && op.K != "create" && op.K != "recharge" && op.K != "fill" && op.K != "jump" && op.K != "http" && op.S < len(h.Sess) {
+		if ref == "" && !op.EmptyRef && op.K != "create" && op.K != "recharge" && op.K != "fill" && op.K != "jump" && op.K != "http" && op.S < len(h.Sess) {
 			se = h.Sess[op.S]
 			ref = se.Ref
 			if op.Supi == "" {
@@ -306,7 +347,7 @@ func (w *World) execInto(supis []string, h *HistRun, ops []Op, snapFrom int, wit
 		case "create":
 			st.Resp = w.Do("POST", ccBase+"/chargingdata", body, nil)
 			if st.Resp.Code == 201 && op.OTE == "" {
-				h.Sess = append(h.Sess, &Sess{U: op.U, Supi: supi, Ref: refOf(st.Resp.Location), Cons: op.Cons, Live: true,
+				h.Sess = append(h.Sess, &Sess{U: op.U, Supi: supi, Ref: refOf(st.Resp.Location), Loc: st.Resp.Location, Cons: op.Cons, Live: true,
 					LastGrant: map[int32]int32{}, CID: op.CID, CreatedAt: i, Notify: op.Notify})
 				se = h.Sess[len(h.Sess)-1]
 			}
@@ -317,7 +358,7 @@ func (w *World) execInto(supis []string, h *HistRun, ops []Op, snapFrom int, wit
 				r := w.Do("POST", ccBase+"/chargingdata", fo.Request(supi), nil)
 				st.Resp = r
 				if r.Code == 201 {
-					h.Sess = append(h.Sess, &Sess{U: op.U, Supi: supi, Ref: refOf(r.Location), Cons: fo.Cons, Live: true, LastGrant: map[int32]int32{}, CID: fo.CID, CreatedAt: i})
+					h.Sess = append(h.Sess, &Sess{U: op.U, Supi: supi, Ref: refOf(r.Location), Loc: r.Location, Cons: fo.Cons, Live: true, LastGrant: map[int32]int32{}, CID: fo.CID, CreatedAt: i})
 				}
 			}
 			se = nil
@@ -339,9 +380,9 @@ func (w *World) execInto(supis []string, h *HistRun, ops []Op, snapFrom int, wit
 			st.Resp.Code = 204
 			se = nil
 		case "update":
-			st.Resp = w.Do("POST", ccBase+"/chargingdata/"+url.PathEscape(ref)+"/update", body, nil)
+			st.Resp = w.Do("POST", sessionTarget(se, op, ref)+"/update", body, nil)
 		case "release":
-			st.Resp = w.Do("POST", ccBase+"/chargingdata/"+url.PathEscape(ref)+"/release", body, nil)
+			st.Resp = w.Do("POST", sessionTarget(se, op, ref)+"/release", body, nil)
 			if se != nil && st.Resp.Code/100 == 2 {
 				se.Live = false
 			}
